@@ -190,10 +190,19 @@ func (c *Ctx) checkSearchScope() {
 			ok, _ := core.GuardedBy(fn, sink, successGuard(p))
 			r.Check(ok, "C19.2-search-scope", base+" / query parsed without error", c.pos(s), "", "a malformed query reaches the store")
 			// restricted-term filter
+			// the filter may sit in an extracted predicate: remember the parameter substitution
 			var fcall *ssa.Call
-			for _, fc := range core.CallsTo(fn, filter) {
-				fcall = fc.(*ssa.Call)
-			}
+			var fOwner *ssa.Function
+			var fSubst map[ssa.Value]ssa.Value
+			c.withCallees(fn, 2, func(owner *ssa.Function, in ssa.Instruction, _ ssa.Instruction) {
+				if call, ok := in.(*ssa.Call); ok && core.CalleeOf(&call.Call) == filter {
+					fcall, fOwner = call, owner
+					fSubst = map[ssa.Value]ssa.Value{}
+					for k, v := range core.ParamSubst {
+						fSubst[k] = v
+					}
+				}
+			})
 			if fcall == nil {
 				r.Fail("C19.2-search-scope", base+" / masked-namespace filter", c.pos(s), "the search handler no longer filters masked-namespace terms")
 				continue
@@ -201,13 +210,15 @@ func (c *Ctx) checkSearchScope() {
 			req := errResultOf(p, 0)
 			opt := errResultOf(p, 1)
 			arg := fcall.Call.Args[0]
+			core.ParamSubst = fSubst
 			coversReq := derivesAny(arg, req)
 			coversOpt := derivesAny(arg, opt)
+			core.ParamSubst = nil
 			r.Check(coversReq && coversOpt, "C19.2-search-scope", base+" / filter covers required and optional terms", c.pos(fcall), "", fmt.Sprintf("the masked-namespace filter does not see all query terms (required=%v optional=%v): a foreign masked tag in the uncovered position reaches the store", coversReq, coversOpt))
 			r.Check(core.IsFieldLoad(masked)(fcall.Call.Args[1]), "C19.2-search-scope", base+" / filter uses globals.maskedTagNS", c.pos(fcall), "", "the filter is not applied with the configured masked namespaces")
 			// compared with the user's own tags; denial when anything is left
 			var dcall *ssa.Call
-			for _, dc := range core.CallsTo(fn, delta) {
+			for _, dc := range core.CallsTo(fOwner, delta) {
 				d := dc.(*ssa.Call)
 				if derivesAny(d.Call.Args[1], func(v ssa.Value) bool { return v == ssa.Value(fcall) }) {
 					dcall = d
